@@ -20,7 +20,7 @@ class Ctx:
         return {"kind": self.kind,
                 "units": {s: [u["cls"], None if u["scale"] is None else rat(u["scale"])]
                           for s, u in self.units.items()},
-                "classes": {c: dict(dim=v["dim"], ref=v["ref"],
+                "classes": {c: dict(dim=v["dim"], ref=v["ref"], parent=v.get("parent"),
                                     quantum=None if v["quantum"] is None else rat(v["quantum"]))
                             for c, v in self.classes.items()}}
 
@@ -28,7 +28,7 @@ class Ctx:
     def load(d, setup):
         units = {s: dict(cls=c, scale=None if k is None else parse_rat(k))
                  for s, (c, k) in d["units"].items()}
-        classes = {c: dict(dim=v["dim"], ref=v["ref"],
+        classes = {c: dict(dim=v["dim"], ref=v["ref"], parent=v.get("parent"),
                            quantum=None if v["quantum"] is None else parse_rat(v["quantum"]))
                    for c, v in d["classes"].items()}
         return Ctx(setup, units, classes, d["kind"])
@@ -92,6 +92,16 @@ def user_ctx(rng, length=14, **kw):
         st = g.power_class(-2 if _CTX_N[0] % 4 == 0 else 3)
         if st is not None:
             steps.append(st)
+    # every second context: a type without reference unit with two units, and
+    # a base type written as a SUBCLASS of an earlier base type (a type of its
+    # own, with its own reference unit)
+    if _CTX_N[0] % 2 == 1:
+        steps.append(g.base_class(refless=True))
+        for _ in range(2):
+            st = g.refless_unit()
+            if st is not None:
+                steps.append(st)
+        steps.append(g.base_class(force_parent=True))
     # targeted: two units of ONE derived type, each defined by a term with a
     # plain-int factor (the factor between them is int / int), and one more
     # term-defined unit
@@ -111,7 +121,7 @@ def user_ctx(rng, length=14, **kw):
             if st is not None:
                 steps.append(st)
     units = {s: dict(cls=u["cls"], scale=u["scale"]) for s, u in w.units.items()}
-    classes = {n: dict(dim=c["dim"], ref=c["ref"], quantum=c["quantum"])
+    classes = {n: dict(dim=c["dim"], ref=c["ref"], quantum=c["quantum"], parent=c.get("parent"))
                for n, c in w.classes.items()}
     ctx = Ctx([st["op"] for st in steps if st["expect"] == "ok"], units, classes, "user")
     ctx.defined = [st["new_sym"] for st in steps if st["expect"] == "ok"
@@ -167,6 +177,17 @@ def kind_tok(rng, x, ctor=False):
     if d == 1 and ctor:
         kinds += ["P:"]
     return rng.choice(kinds) + rat(x)
+
+
+def long_decimal(rng):
+    """a decimal number with more significant digits than any default
+    precision (28 for the standard library's context): 29 to 45 digits, as an
+    integer, with a long fractional part, or of large magnitude"""
+    nd = rng.choice([29, 31, 36, 45])
+    n = rng.randint(10 ** (nd - 1), 10 ** nd - 1) | 1        # does not end in 0
+    if n % 5 == 0:
+        n += 2
+    return Fraction(rng.choice([1, -1]) * n, 10 ** rng.choice([0, 0, 20, nd - 1, nd + 5]))
 
 
 def case_of(ctx, ops, tags):
